@@ -3,7 +3,7 @@ from plans import step
 PLAN = dict(
         coq_targets=["Props/C15.vo"],
         steps=[
-            step("type-checker", "check", "check", 40, 4000),
+            step("type-checker", "check", "check", 40, 480),
         ],
         rule="parsed programs: every .sc of /repo/examples, /repo/testsuite/{success_check,end_to_end,fail_check}, corpus/{fun,lang} "
              "(all constructs, polymorphic declarations at several nested instances, shadowing, covariable parameters and fields), "
